@@ -923,6 +923,7 @@ class State:
             self.obligations.append(ob)
             return
         ob = Obligation(label, kind, self.pc, goal, line if line is not None else self.cur_line, self.path_id, props, info)
+        ob.replay_plan = self.ghost.get('replay_plan')
         self.obligations.append(ob)
 
     # ----- heap
